@@ -94,3 +94,28 @@ def prepare(facts, hyps, goal=None):
     fs = relevant_facts(facts, forms)
     conj = list(fs) + list(hyps) + ([z3.Not(goal)] if goal is not None else [])
     return merge_memberships(conj)
+
+
+_qcache = {}
+
+
+def has_quantifier(e):
+    if not isinstance(e, z3.ExprRef):
+        return False
+    i = e.get_id()
+    if i in _qcache:
+        return _qcache[i]
+    r = False
+    stack = [e]
+    seen = set()
+    while stack:
+        x = stack.pop()
+        if x.get_id() in seen:
+            continue
+        seen.add(x.get_id())
+        if z3.is_quantifier(x):
+            r = True
+            break
+        stack.extend(x.children())
+    _qcache[i] = r
+    return r
